@@ -299,21 +299,58 @@ def _init_worker(path, modname, toy):
     _W["mod"] = importlib.import_module(modname)
 
 
+PERTURB_EVERY = int(os.environ.get("VERIF_PERTURB_EVERY", "8"))
+
+
+def _digest_res(r):
+    return (r.evaluations, tuple(sorted(r.outcomes.items())), tuple(sorted(v["fingerprint"] for v in r.violations)), r.states, r.transitions)
+
+
 def _run_chunk(arg):
     ename, tier, seed, idx, chunk = arg
     mod = _W["mod"]
     eng = {e.name: e for e in mod.engines(tier, seed)}[ename]
     res = Res()
+    per_case = []
     for case in chunk:
         try:
             with quiet():
                 r = eng.run(case)
             if r is not None:
                 res.merge(r)
+                per_case.append(_digest_res(r))
+            else:
+                per_case.append(None)
         except (KeyboardInterrupt, SystemExit):
             raise
         except BaseException as e:  # harness error: never a violation, always loud
             return ("error", idx, f"engine {ename} case {short(case)}: {traceback.format_exc()}")
+    # order-perturbed replay: every PERTURB_EVERY-th chunk is executed a second time in reverse order in the
+    # same process; observations must be identical (shared mutable state in the library shows up here)
+    if PERTURB_EVERY and idx % PERTURB_EVERY == 0 and len(chunk) > 1:
+        again = []
+        for case in reversed(chunk):
+            try:
+                with quiet():
+                    r = eng.run(case)
+                again.append(_digest_res(r) if r is not None else None)
+            except (KeyboardInterrupt, SystemExit):
+                raise
+            except BaseException:
+                return ("error", idx, f"engine {ename} (reverse replay) case {short(case)}: {traceback.format_exc()}")
+        again.reverse()
+        res.notes["order_perturbed_cases"] = len(chunk)
+        for case, a, b in zip(chunk, per_case, again):
+            if a != b:
+                prop = getattr(mod, "PROP", "C??")
+                res.violation(
+                    f"{prop}/{ename}/order-dependence",
+                    {"engine": ename, "toy": list(_W["toy"]) if _W.get("toy") else None, "case": case},
+                    {"first_run": a, "reverse_replay": b},
+                    "identical observations",
+                    "the same case gives different observations when the chunk is re-executed in reverse order in the same process",
+                )
+                break
     return ("ok", idx, res)
 
 
